@@ -8,6 +8,7 @@ def lin_check(trace_file, name=None):
     """Returns (result, rejected) where rejected is a list of dicts describing the histories TLC could not linearize."""
     res = tlc_trace(trace_file, spec="MemcLin", name=name, deque=True, timeout=3000)
     accepted = set(res.get("accepted", []))
+    nonserial = set(res.get("nonserial", []))
     rejected = []
     evs = read_ndjson(trace_file)
     i = 0
@@ -22,7 +23,8 @@ def lin_check(trace_file, name=None):
                 hist = evs[start:j]
                 fin = [e for e in hist if e.get("e") == "final"]
                 rejected.append({"line": start + 1, "crun": evs[start], "events": hist,
-                                 "outcome": fin[0].get("outcome") if fin else "none"})
+                                 "outcome": fin[0].get("outcome") if fin else "none",
+                                 "nonserial": (start + 1) in nonserial})
             i = j
         else:
             i += 1
